@@ -274,9 +274,10 @@ func (d *Dumper) ValueLit(in any, optFns ...ValueLitOptFn) string {
 	case reflect.Bool:
 		return strconv.FormatBool(rv.Bool())
 	case reflect.Float32:
-		return strconv.FormatFloat(rv.Float(), 'f', -1, 32)
+		// 'g': large magnitudes must not be spelled out as integer constants of hundreds of digits, which overflow
+		return strconv.FormatFloat(rv.Float(), 'g', -1, 32)
 	case reflect.Float64:
-		return strconv.FormatFloat(rv.Float(), 'f', -1, 64)
+		return strconv.FormatFloat(rv.Float(), 'g', -1, 64)
 	case reflect.String:
 		return strconv.Quote(rv.String())
 	case reflect.Interface:
